@@ -51,8 +51,10 @@ TEXTS = {
         "technique": "Lean 4 proof of sub-claims over executable model + metamorphic relayout oracle",
     },
     "C11": {
-        "text": "Lean theorems about the idealised optimiser (argmin_shrink, antitone overflow penalty, fits-monotonicity); the "
-                "implementation's search is checked by a width-pair oracle only (partial).",
+        "text": "Lean theorems about the idealised optimiser (argmin_shrink, antitone overflow penalty, fits-monotonicity), and a "
+                "translator-generated obligation (width_is_read_only_as_a_limit): the wrapper's source reads max_line_length only in "
+                "the too-long test of find_optimal_solution and in the overflow penalty - a new read breaks the obligation; the "
+                "implementation's search is checked by a width-pair oracle with an adaptive boundary family and a per-program width sweep (partial).",
         "design_ref": "DESIGN.md section 5 (C11)",
         "note": "find_optimal_solution's pruning and iteration limit are not modelled.",
         "technique": "Lean 4 proof about an idealised optimiser + width-pair oracle",
@@ -115,7 +117,7 @@ TEXTS = {
     },
     "C12": {
         "text": "Lean theorems on the exact model of the multi-line string re-indenter (line-by-line specification: values unchanged, exact "
-                "indentation, configured terminators, rejection rule, untouched when off/ignored; re-indentation changes blanks only: mls_only_blanks_change). The model is checked against the "
+                "indentation, configured terminators, rejection rule, untouched when off/ignored; re-indentation changes blanks only: mls_only_blanks_change; reading the new lines relative to the new indentation gives back the old values: mls_values_preserved). The model is checked against the "
                 "wrapper stage's before/after token contents on every case and a per-literal value oracle runs on the real formatter "
                 "over a targeted family (3/5/7 quotes, LF/CR/CRLF, tab/space/U+3000/control indentation, short/blank/over-indented lines).",
         "design_ref": "DESIGN.md section 5 (C12)",
